@@ -263,6 +263,14 @@ func handFormatDocs() []string {
 			out = append(out, "query Q($v: String = "+sp+" @d(x: ["+sp+"])) { f(a: {k: "+sp+"}) @e(s: "+sp+") }")
 		}
 	}
+	// a comment directly in front of every kind of node (with comments on, what the formatter writes must read
+	// back as the same comments at the same nodes: the second formatting reproduces the text)
+	out = append(out,
+		"query Q($a: [Int] = # c1\n [1, 2], $b: In = # c2\n {k: 1}, # c3\n $c: Int = # c4\n 3 # c5\n @d) { f }",
+		"fragment F($a: [Int] = # c1\n [# c2\n 1, # c3\n [2]], $b: In = {# c4\n k: # c5\n {j: 1}}) on T { f }",
+		"# c0\nquery Q # c1\n ($a: Int) # c2\n @d # c3\n { # c4\n f # c5\n (# c6\n a: # c7\n [1], # c8\n b: {# c9\n k: 1}) # c10\n @e(# c11\n x: 1) # c12\n { g } # c13\n ... # c14\n on T # c15\n { h } # c16\n ...F # c17\n @s } # c18\n",
+		"{ a # c1\n b: # c2\n c # c3\n } # c4\n fragment F # c5\n on # c6\n T # c7\n { x }",
+	)
 	for _, n := range []int{7, 9, 13, 20} {
 		var frags, ops, mixed strings.Builder
 		for i := 0; i < n; i++ {
